@@ -297,12 +297,52 @@ static Case draw() {
     return c;
 }
 
+// deterministic stratum: the cells around both poles (k <= 2 disk of the pole cell, every resolution) are the ones whose bounding box is
+// clamped at the pole and widened to all longitudes; a diamond of 2 % of an edge length around each of their boundary vertices and a
+// triangle of 10 % around each edge midpoint must make OVERLAPPING / OVERLAPPING_BBOX return the cell
+static void enumerate(const std::string &, int shard, int nshards, const std::function<void(const Case &)> &emit) {
+    long idx = 0;
+    for (int res = 0; res <= 15; res++)
+        for (int south = 0; south < 2; south++) {
+            LatLng pole = {south ? -gen::PI / 2 : gen::PI / 2, 0.0};
+            H3Index pc, ring[19] = {0};
+            if (latLngToCell(&pole, res, &pc) || gridDisk(pc, 2, ring)) continue;
+            for (int k = 0; k < 19; k++) {
+                if (!ring[k] || ring[k] == pc) continue;
+                CellBoundary b;
+                if (cellToBoundary(ring[k], &b)) continue;
+                double edge = greatCircleDistanceRads(&b.verts[0], &b.verts[1]);
+                for (int j = 0; j < b.numVerts; j++)
+                    for (int kind = 0; kind < 2; kind++) {
+                        if ((idx++ % nshards) != shard) continue;
+                        LatLng v = b.verts[j];
+                        if (kind == 1) {
+                            const LatLng &w = b.verts[(j + 1) % b.numVerts];
+                            v = gen::toLL(gen::lerpN(gen::toV(v.lat, v.lng), gen::toV(w.lat, w.lng), 0.5));
+                        }
+                        double d = (kind ? 0.1 : 0.02) * edge, dl = d / std::cos(v.lat);
+                        if (fabs(v.lat) + d >= gen::PI / 2 - 1e-9 || fabs(v.lng) + dl >= gen::PI - 1e-9) continue;  // the polygon stays in the chart
+                        Case c;
+                        c.res = res;
+                        c.badflags = 4;
+                        c.g.clat = v.lat; c.g.clng = v.lng; c.g.shape = kind ? 5 : 3; c.g.loc = 8;
+                        c.g.outer.push_back({v.lat + d, v.lng});
+                        c.g.outer.push_back({v.lat, v.lng - dl});
+                        c.g.outer.push_back({v.lat - d, v.lng});
+                        if (!kind) c.g.outer.push_back({v.lat, v.lng + dl});
+                        emit(c);
+                    }
+            }
+        }
+}
+
 int main(int argc, char **argv) {
     for (int i = 1; i < argc; i++) if (std::string(argv[i]) == "thorough") MAXCELLS = 1500;
     Harness<Case> h;
     h.id = "C15";
     h.draw = draw;
     h.check = check;
+    h.enumerate = enumerate;
     h.ser = ser;
     h.deser = deser;
     return harness_main(argc, argv, h);
